@@ -16,7 +16,9 @@ def subharnesses(tier):
             for vring in (False, True):
                 if tier == 'quick' and nep == 2 and npass == 3:
                     continue
-                for il in range(4):
+                for il in range(6):
+                    if il >= 4 and tier == 'quick' and npass > 1:
+                        continue
                     subs.append(('ep%d-pass%d-%s-order%d' % (
                         nep, npass, 'vring' if vring else 'novring', il),
                         {'nep': nep, 'npass': npass, 'vring': vring,
@@ -126,11 +128,14 @@ def harness(S, spec):
              'alias.example.com'][:spec['npass']]
     man_a = _manifest('proid.app#0000000001', 'aaaaaaaaaaaaa', '192.168.0.2',
                       eps, eph_tcp, eph_udp, hosts, spec['vring'])
-    # ---- container B: fixed, overlapping names / ports / hosts on purpose
+    # ---- container B: fixed, overlapping names / ports / hosts on purpose;
+    # in the retry interleavings (4, 5) it starts after A released its
+    # address and is given the same one (VipMgr hands out the first free)
+    VIP_B = '192.168.0.2' if spec['order'] >= 4 else '192.168.0.3'
     b_same_instance = S.flag('b_is_newer_container_of_same_instance')
     man_b = _manifest(
         'proid.app#0000000001' if b_same_instance else 'proid.app#0000000002',
-        'bbbbbbbbbbbbb', '192.168.0.3',
+        'bbbbbbbbbbbbb', VIP_B,
         [{'name': 'ep0', 'proto': 'tcp', 'port': 22, 'real_port': 5010,
           'type': 'infra'},
          {'name': 'ep1', 'proto': 'udp', 'port': 8125, 'real_port': 5011}],
@@ -157,7 +162,8 @@ def harness(S, spec):
     un_b = '%s-%s' % (man_b['name'].replace('#', '-'), man_b['uniqueid'])
     initial = snapshot()
     order = ('sA sB fA fA fB', 'sB sA fA fB fA', 'sA fA sB fB',
-             'sA sB fB fA')[spec['order']].split()
+             'sA sB fB fA', 'sA fA sB fA fB',
+             'sA fA sB fA fA fB')[spec['order']].split()
     b_running = False
     for op in order:
         who = op[1]
@@ -167,7 +173,7 @@ def harness(S, spec):
             if who == 'B':
                 b_running = True
         else:
-            before_b = owned_by(un_b, '192.168.0.3')
+            before_b = owned_by(un_b, VIP_B)
             _finish._cleanup_network(env, os.path.join(root, 'c' + who),
                                      apps[who], client)
             if who == 'B':
@@ -175,9 +181,9 @@ def harness(S, spec):
             elif b_running:
                 S.reach('finish_while_other_runs')
                 S.check('C16:finish_removed_an_entry_of_another_container',
-                        owned_by(un_b, '192.168.0.3') == before_b,
+                        owned_by(un_b, VIP_B) == before_b,
                         {'before': before_b,
-                         'after': owned_by(un_b, '192.168.0.3')})
+                         'after': owned_by(un_b, VIP_B)})
     S.reach('ran')
     final = snapshot()
     S.check('C16:host_state_not_restored_after_all_containers_finished',
